@@ -284,9 +284,19 @@ HARNESSES = {
 }
 
 
+def _own(ctx, name):
+    """A copy of ctx with its own scratch dir: goenv writes overlay.json into ctx.tmp, and several harness
+    processes run at the same time."""
+    import copy
+    c = copy.copy(ctx)
+    c.tmp = ctx.sub("h-" + name)
+    return c
+
+
 def _harness(args):
     ctx, key, beh_dir, env = args
     pkg, test = HARNESSES[key]
+    ctx = _own(ctx, key)
     try:
         res = goenv.run_harness(ctx, pkg, test, inputs=beh_dir, env=env, timeout=1500)
     except HarnessCrash as e:
@@ -299,7 +309,7 @@ def _prebuild(args):
     if key == "stack":
         return key      # same package as "lazy"
     pkg, _ = HARNESSES[key]
-    rc, out = goenv.go_test(ctx, pkg, "^$", timeout=1200)
+    rc, out = goenv.go_test(_own(ctx, "b-" + key), pkg, "^$", timeout=1200)
     if rc != 0:
         raise MachineryError("harness does not build against the current tree (%s):\n%s" % (pkg, out[-3000:]))
     return key
